@@ -105,7 +105,12 @@ static Verdict run_hist(const Case &c) {
                 }
             } else if (silent == 30) {
                 // exactly 30 s: either outcome is accepted; follow the implementation
-                if (ms.inactive_ts == 0) { e.st = 0; e.ctc = 0; e.charge_deadline = -1; e.last_frame = -1; e.last_input = now; if (got != 0) v.fail(fmt("step %zu: inactivity deadline consumed but state is %d", i, got)); }
+                if (ms.inactive_ts == 0) {
+                    e.st = 0; e.ctc = 0; e.charge_deadline = -1; e.last_frame = -1; e.last_input = now;
+                    if (got != 0) v.fail(fmt("step %zu: inactivity deadline consumed but state is %d", i, got));
+                    else if (ms.ctc != 0) v.fail(fmt("step %zu: the tick ended the session (deadline consumed) but the charge counter is %u", i, ms.ctc));
+                    else if (!br_st_is_empty(d.table)) v.fail(fmt("step %zu: the tick ended the session (deadline consumed) but the session table still holds %u session(s)", i, br_st_count(d.table)));
+                }
                 else if (got != before) v.fail(fmt("step %zu: tick changed the mapping state %d -> %d without ending the session", i, before, got));
             } else {
                 early_ticks++;
